@@ -25,9 +25,9 @@ ASSUMPTIONS = ["equality with the reference fixed point is asserted only at phi 
                "label format f'{k}-{vertices}-{edges}-{id}' as the mixin parses it; vertex ids are non-negative ints",
                "`_H_tau` residual check is auxiliary (hasattr-guarded)"]
 HEADLINE = ["networks", "queries", "fixed_point_equalities", "nontrivial_equalities", "slow_points_skipped", "order_dependent_points_skipped", "monotonicity_pairs", "bounds_checks",
-            "reuse_vs_fresh_checks", "residual_checks", "loopy_networks", "treelike_controls", "second_networks", "second_network_equalities"]
-REQUIRED = {"quick": {"fixed_point_equalities": 20, "nontrivial_equalities": 5, "monotonicity_pairs": 100, "reuse_vs_fresh_checks": 30, "loopy_networks": 5, "second_network_equalities": 10},
-            "thorough": {"fixed_point_equalities": 500, "nontrivial_equalities": 100, "monotonicity_pairs": 3000, "reuse_vs_fresh_checks": 800, "loopy_networks": 100, "second_network_equalities": 200}}
+            "reuse_vs_fresh_checks", "residual_checks", "loopy_networks", "treelike_controls", "second_networks", "second_network_equalities", "relabelled_in_place_networks", "relabelled_network_equalities"]
+REQUIRED = {"quick": {"fixed_point_equalities": 20, "nontrivial_equalities": 5, "monotonicity_pairs": 100, "reuse_vs_fresh_checks": 30, "loopy_networks": 5, "second_network_equalities": 10, "relabelled_network_equalities": 6},
+            "thorough": {"fixed_point_equalities": 500, "nontrivial_equalities": 100, "monotonicity_pairs": 3000, "reuse_vs_fresh_checks": 800, "loopy_networks": 100, "second_network_equalities": 200, "relabelled_network_equalities": 100}}
 SHARD_TIMEOUT = {"quick": 900, "thorough": 10800}
 SHAPES = [[(0, 1)], [(0, 1), (1, 2), (0, 2)], [(0, 1), (1, 2), (2, 3), (3, 0)], [(0, 1), (1, 2), (2, 3), (3, 0), (0, 2)],
           list(itertools.combinations(range(4), 2)), [(0, 1), (1, 2), (2, 3), (3, 4), (4, 0)],
@@ -278,6 +278,31 @@ def run_case(case):
             res.count("second_network_equalities")
             if abs(a - S) > 1e-6:
                 res.violate("differs-from-the-reference-fixed-point", phi=phi, got=a, want=S, ctx=ctx2); break
+    # (5) history on one graph OBJECT: its cover labels are replaced in place (here: by the edge cover - every edge its own
+    # 2-clique) and a NEW MessagePassing object is built on it; it must answer for the cover the graph carries now
+    if res.verdict == "held" and rng.random() < 0.6:
+        motifs3 = []
+        for n_e, (a, b) in enumerate(list(G.edges())):
+            vs = sorted([a, b])
+            G.edges[a, b]["CoverLabel"] = f"2-{vs}-{[(a, b)]}-{1000 + n_e}"
+            motifs3.append((vs, [(a, b)]))
+        ref3 = Reference(G, motifs3)
+        ctx3 = {"cover_labels_replaced_in_place_by_the_edge_cover": True, "edges": list(G.edges())[:40], "n": G.order(), "cover_before": ctx["motifs"]}
+        MP3 = sut("MessagePassing(G after re-labelling, iterations=40)", gcmpy.MessagePassing, G, iterations=40)
+        res.count("relabelled_in_place_networks")
+        done = 0
+        for phi in rng.sample(grid[1:-1], len(grid) - 2):
+            if done >= 3:
+                break
+            S, why = ref3.solve_order_independent(phi, orng)
+            if why != "ok":
+                continue
+            done += 1
+            a = sut("theoretical(re-labelled graph)", MP3.theoretical, phi)
+            res.count("queries")
+            res.count("relabelled_network_equalities")
+            if abs(a - S) > 1e-6:
+                res.violate("differs-from-the-reference-fixed-point", phi=phi, got=a, want=S, ctx=ctx3); break
     res.nontrivial = nt
     res.sample = {"motifs": [(vs, es) for vs, es in motifs], "n": G.order(), "loopy": loopy, "fast_points": sorted(fast)[:12]}
     res.digest = digest(res.sample)
